@@ -12,7 +12,7 @@ vars == <<n, d, c, r, phase>>
 
 \* radius grid as float bit patterns: 0, 0.5, 1, 1.2, 1.41, 1.42, 1.5, 1.74, 2, 2.1, 3, 100
 \* (lattice distances themselves and values just below / above sqrt 2 and sqrt 3)
-Radii == <<0, 1056964608, 1065353216, 1067030938, 1068792545, 1068876431, 1069547520, 1071560786, 1073741824, 1074161254, 1077936128, 1120403456>>
+Radii == <<0, 1056964608, 1065353215, 1065353216, 1067030938, 1068792545, 1068876431, 1069547520, 1071560786, 1073741823, 1073741824, 1074161254, 1077936127, 1077936128, 1120403456>>   \* incl. the largest floats below 1, 2 and 3
 \* two phases so that the grid points are evaluated by TLC's worker threads
 Init == phase = "pick" /\ n \in 1..MaxN /\ d \in 1..MaxD /\ c = 0 /\ r = 1
 Next == phase = "pick" /\ phase' = "point" /\ c' \in 0..(n - 1) /\ r' \in 1..Len(Radii) /\ UNCHANGED <<n, d>>
@@ -31,10 +31,11 @@ T5Body == /\ IPow(E, d) >= n /\ (E > 1 => IPow(E - 1, d) < n)
           /\ \A i, j \in 0..(Min2(IPow(E, d), 200) - 1) : Decompose(i, E, d) = Decompose(j, E, d) => i = j
           /\ \A i \in 0..(n - 1) : \A k \in 1..d : Decompose(i, E, d)[k] \in 0..(E - 1)
 T5 == phase = "point" => T5Body
-\* brute-force ball with the radius as an exact rational where it is one (0, 1/2, 1, 3/2, 2, 3, 100)
-ExactR == [x \in {1, 2, 3, 5, 6, 7, 8, 9, 11, 12} |->
-             CASE x = 1 -> <<0, 1>> [] x = 2 -> <<1, 2>> [] x = 3 -> <<1, 1>> [] x = 5 -> <<141, 100>> [] x = 6 -> <<142, 100>>
-               [] x = 7 -> <<3, 2>> [] x = 8 -> <<174, 100>> [] x = 9 -> <<2, 1>> [] x = 11 -> <<3, 1>> [] x = 12 -> <<100, 1>>]
+\* brute-force ball with the radius as an exact rational where it is one (0, 1/2, 1, 3/2, 2, 3, 100); for the largest floats
+\* below 1, 2 and 3 any rational strictly between the neighbouring lattice distances decides the same integer distances
+ExactR == [x \in {1, 2, 3, 4, 6, 7, 8, 9, 10, 11, 13, 14, 15} |->
+             CASE x = 1 -> <<0, 1>> [] x = 2 -> <<1, 2>> [] x = 3 -> <<999, 1000>> [] x = 4 -> <<1, 1>> [] x = 6 -> <<141, 100>> [] x = 7 -> <<142, 100>>
+               [] x = 8 -> <<3, 2>> [] x = 9 -> <<174, 100>> [] x = 10 -> <<1999, 1000>> [] x = 11 -> <<2, 1>> [] x = 13 -> <<2999, 1000>> [] x = 14 -> <<3, 1>> [] x = 15 -> <<100, 1>>]
 T6 == phase = "point" /\ r \in DOMAIN ExactR =>
         Range(Ball) = {j \in 0..(n - 1) : Dist2(Decompose(c, E, d), Decompose(j, E, d)) * ExactR[r][2] * ExactR[r][2] <= ExactR[r][1] * ExactR[r][1]}
 Emit == phase = "point" => PrintT("CASE " \o ToJson([ops |-> <<[m |-> "find_neighbors", args |-> <<n, d, c, Radii[r]>>],
